@@ -251,6 +251,7 @@ where
 
             // The length does not matter anymore and `curr_line` will be reset
             // at the end, so move the line segments out.
+            let curr_line_has_text = curr_line.has_text();
             let mut line_segments = curr_line.line_segments;
 
             let next_line = if width_left == 0 {
@@ -266,6 +267,16 @@ where
                     } else {
                         break;
                     }
+                }
+
+                // A double-width grapheme never fits into a single column next to the wrap
+                // symbol. If the line is otherwise empty no progress is possible, and without
+                // a line limit nothing else would end this loop: stop wrapping here, what is
+                // left is added to the last line and truncated later.
+                if byte_split_pos == 0 && !curr_line_has_text && max_lines == 0 {
+                    stack.push((style, text));
+                    curr_line = CurrLine::reset();
+                    break Stop::LineLimit;
                 }
 
                 let this_line = &text[..byte_split_pos];
